@@ -68,9 +68,22 @@ def concat_parts(t):
     return [t]
 
 
+def resolve_str(p, s, depth=0):
+    """Simplify and unfold string constants that the path condition defines."""
+    s = z3.simplify(s)
+    if depth > 6:
+        return s
+    defs = getattr(p, 'str_defs', {})
+    if z3.is_const(s) and s.decl().kind() == z3.Z3_OP_UNINTERPRETED and str(s) in defs:
+        return resolve_str(p, defs[str(s)], depth + 1)
+    if z3.is_app(s) and s.decl().kind() == z3.Z3_OP_SEQ_CONCAT:
+        return z3.Concat(*[resolve_str(p, a, depth + 1) for a in s.children()])
+    return s
+
+
 def int_of_str(p, s):
     """(is_valid: z3 Bool, value: z3 Int) for int(s)."""
-    s = z3.simplify(s)
+    s = resolve_str(p, s)
     s0 = s
     if z3.is_string_value(s):
         txt = s.as_string()
@@ -97,7 +110,7 @@ INTCHARS = set('-0123456789')
 
 
 def str_replace(p, s, old, new):
-    s, old, new = z3.simplify(s), z3.simplify(old), z3.simplify(new)
+    s, old, new = resolve_str(p, s), z3.simplify(old), z3.simplify(new)
     if z3.is_string_value(old) and z3.is_string_value(new):
         o, n = old.as_string(), new.as_string()
         if z3.is_string_value(s):
